@@ -3,6 +3,8 @@
 package cert
 
 import (
+	"net/http/httptest"
+	"net/http"
 	"bytes"
 	"crypto/ecdsa"
 	"crypto/elliptic"
@@ -350,7 +352,7 @@ type stopWatch struct{}
 
 func TestVerifC11Watch(t *testing.T) {
 	L := ev.Begin("C11", "c11-watch", "model_checking",
-		"every history (length <= N) of certificate-source answers {good set A, good set B, same as last, load error, broken PEM, good + one broken file, key without cert} through the real cert.watch loop (time.Sleep redirected to a virtual clock, loader owned by the harness), for refresh in {3s, 100ms (clamped to 1s)}; state = last accepted answer; invariants: published sets are exactly the good changed answers in order, a bad answer never publishes, between two loader calls without a publish there is a sleep of >= 1s virtual time (no spinning). non-trivial = history containing a bad answer")
+		"every history (length <= N) of certificate-source answers {good set A, good set B, same as last, load error, broken PEM, good + one broken file, key without cert; and through the real HTTP loader: good set A, 503 on the list URL, 404 HTML page on the list URL, list fine but a file answers 500} through the real cert.watch loop (time.Sleep redirected to a virtual clock, loader owned by the harness), for refresh in {3s, 100ms (clamped to 1s)}; state = last accepted answer; invariants: published sets are exactly the good changed answers in order, a bad answer never publishes, between two loader calls without a publish there is a sleep of >= 1s virtual time (no spinning). non-trivial = history containing a bad answer")
 	a := c11Make("set-a", "foo.com")
 	b := c11Make("set-b", "foo.com")
 	broken := []byte("-----BEGIN CERTIFICATE-----\nZm9v\n-----END CERTIFICATE-----\n")
@@ -362,7 +364,31 @@ func TestVerifC11Watch(t *testing.T) {
 		{"good-A+broken-file", map[string][]byte{"a.pem": a.pem, "z.pem": broken}, nil, false},
 		{"key-without-cert", map[string][]byte{"x-key.pem": a.pem}, nil, false},
 		{"empty", map[string][]byte{}, nil, true},
+		// the same through the real HTTP loader (cert.loadURL) against a scripted server
+		{"http:good-A", nil, nil, true},
+		{"http:503-on-the-list-url", nil, nil, false},
+		{"http:404-html-page-on-the-list-url", nil, nil, false},
+		{"http:list-ok-but-file-500", nil, nil, false},
 	}
+	var httpMode string
+	hsrv := httptest.NewServer(http.HandlerFunc(func(w http.ResponseWriter, r *http.Request) {
+		list := strings.HasSuffix(r.URL.Path, "/list")
+		switch {
+		case httpMode == "http:503-on-the-list-url":
+			http.Error(w, "service unavailable", 503)
+		case httpMode == "http:404-html-page-on-the-list-url":
+			w.Header().Set("Content-Type", "text/html")
+			w.WriteHeader(404)
+			w.Write([]byte("<html>\n<body>not found</body>\n</html>\n"))
+		case list:
+			w.Write([]byte("a.pem\n"))
+		case httpMode == "http:list-ok-but-file-500":
+			http.Error(w, "boom", 500)
+		default:
+			w.Write(a.pem)
+		}
+	}))
+	defer hsrv.Close()
 	N := 4
 	if ev.Thorough() {
 		N = 5
@@ -419,6 +445,10 @@ func TestVerifC11Watch(t *testing.T) {
 				if len(events) > 50*len(h)+50 {
 					panic(stopWatch{})
 				}
+				if strings.HasPrefix(ans.name, "http:") {
+					httpMode = ans.name
+					return loadURL(hsrv.URL + "/certs/list")
+				}
 				return ans.pems, ans.err
 			}
 			func() {
@@ -453,7 +483,7 @@ func TestVerifC11Watch(t *testing.T) {
 				}
 				last = eff
 				switch an.name {
-				case "good-A":
+				case "good-A", "http:good-A":
 					wantPub = append(wantPub, "set-a")
 				case "good-B":
 					wantPub = append(wantPub, "set-b")
